@@ -23,6 +23,10 @@ type Merger struct {
 
 	less    func(a, b *sam.Record) bool
 	readers []*reader
+
+	// err is the first read error, other than io.EOF,
+	// of an input that has been retired from the merge.
+	err error
 }
 
 type reader struct {
@@ -104,6 +108,8 @@ func NewMerger(less func(a, b *sam.Record) bool, src ...*Reader) (*Merger, error
 			if r.head != nil {
 				m.readers[n] = r
 				n++
+			} else if r.err != nil && r.err != io.EOF && m.err == nil {
+				m.err = r.err
 			}
 		}
 		m.readers = m.readers[:n]
@@ -124,6 +130,10 @@ func (m *Merger) Header() *sam.Header {
 // The Read behaviour will depend on the underlying Readers.
 func (m *Merger) Read() (rec *sam.Record, err error) {
 	if len(m.readers) == 0 {
+		if m.err != nil {
+			// An input failed: the merge is not complete.
+			return nil, m.err
+		}
 		return nil, io.EOF
 	}
 	if m.less == nil {
@@ -139,6 +149,9 @@ func (m *Merger) cat() (rec *sam.Record, err error) {
 		m.readers = m.readers[1:]
 		err = nil
 	}
+	if err != nil {
+		return nil, err
+	}
 	if rec == nil {
 		return m.Read()
 	}
@@ -152,6 +165,8 @@ func (m *Merger) nextBySortOrder() (rec *sam.Record, err error) {
 	reader.head, reader.err = reader.r.Read()
 	if reader.err == nil {
 		m.push(reader)
+	} else if reader.err != io.EOF && m.err == nil {
+		m.err = reader.err
 	}
 	if rec == nil {
 		return m.Read()
